@@ -523,3 +523,103 @@ Proof.
   - intros k Hk. rewrite !mg_mkm by assumption. cbn [div mul nsqrt NumR]. field. lra.
 Qed.
 End Symmetrise.
+
+(* ------------------------------------------------------------------ bundled statements *)
+(* a rate matrix: rows sum to zero, off-diagonal entries non-negative *)
+Definition rate_matrix (n : nat) (Q : list (list R)) : Prop :=
+  List.Forall (fun row => nsum NumR row = 0) Q /\
+  (forall i j, (i < n)%nat -> (j < n)%nat -> i <> j -> 0 <= mg Q i j).
+(* reversible w.r.t. pi: detailed balance and stationarity *)
+Definition reversible (n : nat) (Q : list (list R)) (pi : list R) : Prop :=
+  (forall i j, (i < n)%nat -> (j < n)%nat -> vg pi i * mg Q i j = vg pi j * mg Q j i) /\
+  (forall j, (j < n)%nat -> Sumn n (fun i => vg pi i * mg Q i j) = 0).
+
+Lemma builder_rate_matrix n r pi :
+  (forall i j, 0 <= r i j) -> List.Forall (fun x => 0 <= x) pi -> rate_matrix n (q_of_R NumR n r pi).
+Proof. intros Hr Hp. split; [apply q_rows_sum_zero|apply q_offdiag_nonneg; assumption]. Qed.
+Lemma builder_reversible n r pi :
+  (forall i j, r i j = r j i) -> reversible n (q_of_R NumR n r pi) pi.
+Proof. intros Hs. split; [apply q_detailed_balance|apply q_pi_stationary]; assumption. Qed.
+
+Lemma S_pos {A} (l : list A) f k0 :
+  (forall k, In k l -> 0 <= f k) -> In k0 l -> 0 < f k0 -> 0 < Sum l f.
+Proof.
+  induction l as [|x l IH]; intros H Hin Hk; [destruct Hin|]. rewrite S_cons.
+  destruct Hin as [->|Hin].
+  - assert (0 <= Sum l f) by (apply S_nonneg; intros; apply H; right; assumption). lra.
+  - assert (0 <= f x) by (apply H; left; reflexivity).
+    assert (0 < Sum l f) by (apply IH; auto; intros; apply H; right; assumption). lra.
+Qed.
+
+(* on the open domain (positive exchangeabilities and frequencies, at least two states) the
+   normalising constant is positive *)
+Lemma builder_norm_pos n r pi :
+  (2 <= n)%nat -> (forall i j, (i < n)%nat -> (j < n)%nat -> i <> j -> 0 < r i j) ->
+  (forall i, (i < n)%nat -> 0 < vg pi i) -> 0 < M_subst.norm NumR n (q_of_R NumR n r pi) pi.
+Proof.
+  intros Hn Hr Hp. unfold M_subst.norm. rewrite sum_n_S. cbn [opp NumR]. rewrite <- S_opp.
+  assert (T : forall i, (i < n)%nat ->
+              0 <= Sumn n (fun k => if Nat.eqb k i then 0 else r i k * vg pi k)).
+  { intros i Hi. apply S_nonneg. intros k Hk. apply in_seq in Hk. destruct (Nat.eqb_spec k i); [lra|].
+    apply Rlt_le, Rmult_lt_0_compat; [apply Hr; (lia || congruence)|apply Hp; lia]. }
+  apply (S_pos _ _ 0%nat).
+  - intros i Hi. apply in_seq in Hi. rewrite q_entry_mg, qe_diag by lia. cbn [mul NumR].
+    specialize (T i ltac:(lia)). specialize (Hp i ltac:(lia)). nra.
+  - apply in_seq; lia.
+  - rewrite q_entry_mg, qe_diag by lia. cbn [mul NumR].
+    assert (0 < Sumn n (fun k => if Nat.eqb k 0 then 0 else r 0%nat k * vg pi k)).
+    { apply (S_pos _ _ 1%nat).
+      - intros k Hk. apply in_seq in Hk. destruct (Nat.eqb_spec k 0); [lra|].
+        apply Rlt_le, Rmult_lt_0_compat; [apply Hr; lia|apply Hp; lia].
+      - apply in_seq; lia.
+      - cbn [Nat.eqb]. apply Rmult_lt_0_compat; [apply Hr; lia|apply Hp; lia]. }
+    specialize (Hp 0%nat ltac:(lia)). nra.
+Qed.
+
+(* dividing by a positive constant keeps a (reversible) rate matrix one *)
+Lemma mdiv_rate_matrix n Q c : 0 < c -> rate_matrix n Q -> rate_matrix n (mdiv NumR Q c).
+Proof.
+  intros Hc [H1 H2]. split; [apply mdiv_rows_sum_zero; assumption|].
+  intros i j Hi Hj Hij. rewrite mg_mdiv. apply Rmult_le_pos; [apply H2; assumption|].
+  left; apply Rinv_0_lt_compat; assumption.
+Qed.
+Lemma mdiv_reversible n Q pi c : reversible n Q pi -> reversible n (mdiv NumR Q c) pi.
+Proof.
+  intros [H1 H2]. split.
+  - intros i j Hi Hj. rewrite !mg_mdiv. unfold Rdiv. rewrite <- !Rmult_assoc, (H1 i j Hi Hj). reflexivity.
+  - intros j Hj. rewrite (S_ext _ _ (fun i => (vg pi i * mg Q i j) * / c)).
+    + rewrite S_scal_r, (H2 j Hj). ring.
+    + intros i _. rewrite mg_mdiv. unfold Rdiv. ring.
+Qed.
+
+(* SymmetricSubstitutionModel.p_t / EmpiricalSubstitutionModel.p_t: for ANY exact eigendecomposition
+   V diag(lam) V^-1 of the symmetrised matrix, the formula
+   (sqrt_pi_inv V) diag(exp(lam t)) (V^-1 sqrt_pi) is a semigroup with P(0) = I whose generator is Q,
+   and its rows sum to one when the rows of Q sum to zero. *)
+Lemma symmetric_p_t n Q pi V W lam :
+  (forall i, (i < n)%nat -> 0 < vg pi i) -> wf n Q -> wf n V -> wf n W -> length lam = n ->
+  mmul NumR n V W = mident NumR n -> mmul NumR n W V = mident NumR n ->
+  mmul NumR n (map (fun row => vmul NumR row lam) V) W = symmetrised NumR n Q pi ->
+  let P := p_spectral NumR n (spectral_A NumR n V pi) lam (spectral_B NumR n W pi) in
+  P 0 = mident NumR n /\
+  (forall s t, mmul NumR n (P s) (P t) = P (s + t)) /\
+  (forall i j, (i < n)%nat -> (j < n)%nat -> is_derive (fun t => mg (P t) i j) 0 (mg Q i j)) /\
+  (forall i j t, (i < n)%nat -> (j < n)%nat -> continuous (fun t => mg (P t) i j) t) /\
+  (List.Forall (fun row => nsum NumR row = 0) Q ->
+   forall t i, (i < n)%nat -> Sumn n (fun j => mg (P t) i j) = 1).
+Proof.
+  intros Hp HQ HV HW Hl HVW HWV He P.
+  destruct (factors_wf n pi V W) as [HAw HBw].
+  pose proof (factors_AB n pi Hp V W HV HW HVW) as HAB.
+  pose proof (factors_BA n pi Hp V W HV HW HWV) as HBA.
+  pose proof (factors_generate_Q n Q pi Hp V W lam HQ HV HW Hl He) as HG.
+  split; [apply spectral_P0; assumption|].
+  split; [intros; apply spectral_semigroup; assumption|].
+  split; [intros; apply spectral_generator; assumption|].
+  split; [intros; apply spectral_continuous; assumption|].
+  intros Hrows t i Hi. apply spectral_rows_sum_one; try assumption.
+  intros i0 Hi0.
+  pose proof HG as E. rewrite (AlamB_mkm n _ _ lam HAw HBw Hl) in E.
+  rewrite <- E in Hrows. rewrite Forall_forall in Hrows. unfold Sum at 1.
+  apply Hrows. unfold mk_mat. apply in_map_iff. exists i0. split; [reflexivity|apply in_seq; lia].
+Qed.
